@@ -225,6 +225,7 @@ fn check_byte(c: &Case, mem: Option<&Guarded>) -> Result<(), String> {
             eq!("memchr3", memchr::memchr3(a, b, d, h), first);
             eq!("memrchr3", memchr::memrchr3(a, b, d, h), last);
             eq!("memchr3_iter", memchr::memchr3_iter(a, b, d, h).collect::<Vec<_>>(), all);
+            eq!("memrchr3_iter", memchr::memrchr3_iter(a, b, d, h).collect::<Vec<_>>(), all.iter().rev().cloned().collect::<Vec<_>>());
             let s = swar::Three::new(a, b, d);
             eq!("swar::Three::find", s.find(h), first);
             eq!("swar::Three::rfind", s.rfind(h), last);
